@@ -1,3 +1,3 @@
 module gonum.org/v1/hdf5
 
-go 1.12
+go 1.23
